@@ -18,7 +18,7 @@ ASSUMPTIONS = ["numpy.linalg.svd in float64 is the trusted reference",
                "randomized_svd asserted only when n_eigenvecs + n_oversamples covers the numerical rank",
                "masked SVD (imputation loop) is not part of the statement and is not exercised"]
 METHODS = ["truncated_svd", "symeig_svd", "randomized_svd", "callable", "direct_truncated"]
-CLASSES = ["generic", "rankdef", "repeated", "integer", "nonneg", "diag", "generic", "balanced-signs", "symmetric-singular", "graded"]
+CLASSES = ["generic", "rankdef", "repeated", "integer", "nonneg", "diag", "generic", "balanced-signs", "symmetric-singular", "graded", "coordinate-structure"]
 
 
 def plan(tier, seed):
@@ -94,6 +94,32 @@ def make_matrix(rs, cls, d1, d2, dt):
             S = v @ v.T
         M = np.zeros((d1, d2))
         M[:n, :n] = S
+    elif cls == "coordinate-structure":
+        # ranges that contain coordinate vectors: zero padding in front of / behind / around a dense block, indicator (one-hot)
+        # rows and columns for single samples, reversed or permuted identities
+        how = rs.randint(5)
+        M = np.zeros((d1, d2))
+        if how == 0:      # padded block
+            r0, c0 = int(rs.randint(0, d1)), int(rs.randint(0, d2))
+            r1, c1 = int(rs.randint(r0 + 1, d1 + 1)), int(rs.randint(c0 + 1, d2 + 1))
+            M[r0:r1, c0:c1] = rs.standard_normal((r1 - r0, c1 - c0))
+        elif how == 1:    # dense block plus an indicator column / row for the last (or first) sample
+            M = rs.standard_normal((d1, d2))
+            i_, j_ = (d1 - 1, d2 - 1) if rs.rand() < 0.6 else (0, 0)
+            M[i_, :] = 0
+            M[:, j_] = 0
+            M[i_, j_] = float(rs.randint(1, 4))
+        elif how == 2:    # (part of) a reversed identity
+            n = min(d1, d2)
+            M[np.arange(n)[::-1] % d1, np.arange(n)] = 1.0
+        elif how == 3:    # a permutation with signs and scales
+            n = min(d1, d2)
+            M[rs.permutation(d1)[:n], rs.permutation(d2)[:n]] = rs.randint(1, 4, size=n) * rs.choice([-1.0, 1.0], n)
+        else:             # a few dense rows, the rest zero
+            k_ = int(rs.randint(1, d1 + 1))
+            M[rs.permutation(d1)[:k_], :] = rs.standard_normal((k_, d2))
+        if not np.any(M):
+            M[-1, -1] = 1.0
     else:
         raise ValueError(cls)
     return M.astype(dt)
@@ -196,6 +222,20 @@ def run_case(case, ctx):
     meth_arg = (eigh_svd if use_eigh else np_svd) if method == "callable" else method
     sym = method == "symeig_svd"
     rnd = method == "randomized_svd"
+    received = {}
+    if method == "callable" and not use_eigh and not cplx and rs.rand() < 0.35:
+        # a user's wrapper that takes its options through a catch-all and hands them on to the randomized routine: the interface
+        # documents that it forwards its keywords to a callable
+        from tensorly.tenalg.svd import randomized_svd as _rsvd
+
+        def kw_svd(matrix, n_eigenvecs=None, **options):
+            received.update(options)
+            return _rsvd(matrix, n_eigenvecs, **options)
+        meth_arg, rnd = kw_svd, True
+        n_over = 10
+        kw = {"random_state": seed, "n_oversamples": n_over, "n_iter": int(gen.choice(rs, [2, 4]))}
+        desc["callable"] = "catch-all-wrapper-around-randomized_svd"
+        mcls = "callable"
     mcls = "%s" % method
 
     def viol(clause, sub, what, wit=None):
@@ -208,6 +248,12 @@ def run_case(case, ctx):
         U, S, V = svd_interface(M, method=meth_arg, n_eigenvecs=n_req, flip_sign=flip, u_based_flip_sign=ubased,
                                 non_negative=nonneg, **kw)
     U, S, V = np.asarray(U), np.asarray(S), np.asarray(V)
+    if desc.get("callable", "").startswith("catch-all"):
+        ctx.count("callable_with_catch_all_options")
+        lost = [k_ for k_ in ("random_state", "n_oversamples", "n_iter") if k_ not in received]
+        if lost:
+            ctx.violation("C05:callable:options-forwarded:catch-all", "svd_interface did not hand %s on to a callable that accepts its options through **kwargs" % lost, {"desc": desc, "received": sorted(received)})
+            return
 
     # ---- shapes ------------------------------------------------------------------------------
     ctx.count("clause/shapes")
